@@ -10,6 +10,9 @@
  *     op = y2c g2c r2c y2g r2g : the decompressor's colour deconverter (jdcolor.c/jdcolext.c or
  *                        SIMD) run on planes <list 1..3> writing into buffer <last list>
  *                        -> "ok buffer"
+ *     op = c2k k2c      : cmyk_ycck_convert (jccolor.c) / ycck_cmyk_convert (jdcolor.c), cs = JCS_CMYK
+ *     op = y5 r5 g5 [d] : the six RGB565 converters of jdcol565.c (d = ordered dither); <bottomup> field =
+ *                        bu | mis<<1 | rows_per_call<<3 | first_scanline<<6 (mis = output address modulo 4)
  *     op = m1 m2        : merged upsampling h2v1 / h2v2 (jdmerge.c/jdmrgext.c or SIMD)
  * API cases (property oracle, judged by checks/C10.py; independent of the model):
  *   enc <bits> <w> <h> <subsamp> <qual> <cspace> <lossless> <psv> <pt> <prec> <flags> <seed> <kind>
@@ -124,14 +127,14 @@ static unsigned char *make_jpeg(int bits, int w, int h, int jcs, int hs, int vs,
 {
   struct jpeg_compress_struct c; struct jpeg_error_mgr e;
   unsigned char *out = NULL; void *row = NULL;
-  int y, nc = (jcs == JCS_GRAYSCALE) ? 1 : 3;
+  int y, nc = (jcs == JCS_GRAYSCALE) ? 1 : (jcs == JCS_YCCK || jcs == JCS_CMYK) ? 4 : 3;
   *len = 0;
   c.err = mkerr(&e);
   if (setjmp(jb)) { jpeg_destroy_compress(&c); free(row); free(out); return NULL; }
   jpeg_create_compress(&c);
   jpeg_mem_dest(&c, &out, len);
   c.image_width = w; c.image_height = h; c.input_components = nc;
-  c.in_color_space = (nc == 1) ? JCS_GRAYSCALE : JCS_RGB;
+  c.in_color_space = (nc == 1) ? JCS_GRAYSCALE : (nc == 4) ? JCS_CMYK : JCS_RGB;
   c.data_precision = bits;
   jpeg_set_defaults(&c);
   c.data_precision = bits;
@@ -165,9 +168,9 @@ static void kernel_compress(const char *op, int bits, int cs, int w, int h, int 
 {
   struct jpeg_compress_struct c; struct jpeg_error_mgr e;
   int n = list_len[0], i, ci, ncomp;
-  void *buf = NULL, *planes[3] = { NULL, NULL, NULL };
-  void **inrows = NULL; void **prow[3] = { NULL, NULL, NULL }; void ***img = NULL;
-  int jcs = !strcmp(op, "c2y") ? JCS_YCbCr : !strcmp(op, "c2g") ? JCS_GRAYSCALE : JCS_RGB;
+  void *buf = NULL, *planes[4] = { NULL, NULL, NULL, NULL };
+  void **inrows = NULL; void **prow[4] = { NULL, NULL, NULL, NULL }; void ***img = NULL;
+  int jcs = !strcmp(op, "c2y") ? JCS_YCbCr : !strcmp(op, "c2g") ? JCS_GRAYSCALE : !strcmp(op, "c2k") ? JCS_YCCK : JCS_RGB;
   c.err = mkerr(&e);
   if (setjmp(jb)) { printf("err %d\n", last_err); goto done; }
   jpeg_create_compress(&c);
@@ -175,7 +178,7 @@ static void kernel_compress(const char *op, int bits, int cs, int w, int h, int 
   for (i = 0; i < n; i++) puts_(buf, bits, i, nums[list_off[0] + i]);
   c.image_width = w; c.image_height = h;
   c.in_color_space = (J_COLOR_SPACE)cs;
-  c.input_components = (cs == JCS_RGB || cs == JCS_EXT_RGB || cs == JCS_EXT_BGR) ? 3 : 4;
+  c.input_components = (cs == JCS_RGB || cs == JCS_EXT_RGB || cs == JCS_EXT_BGR) ? 3 : 4;   /* JCS_CMYK: 4 */
   jpeg_set_defaults(&c);
   c.data_precision = bits;
   if (bits == 16) jpeg_enable_lossless(&c, 1, 0);
@@ -189,8 +192,8 @@ static void kernel_compress(const char *op, int bits, int cs, int w, int h, int 
   inrows = malloc(sizeof(void *) * (h + 1));
   for (i = 0; i < h; i++)
     inrows[i] = (char *)buf + (size_t)(bu ? (h - i - 1) : i) * pitch * ssz(bits);
-  img = malloc(sizeof(void **) * 3);
-  for (ci = 0; ci < 3; ci++) {
+  img = malloc(sizeof(void **) * 4);
+  for (ci = 0; ci < 4; ci++) {
     planes[ci] = calloc((size_t)w * h + 64, 2);
     prow[ci] = malloc(sizeof(void *) * (h + 1));
     for (i = 0; i < h; i++) prow[ci][i] = (char *)planes[ci] + (size_t)i * w * ssz(bits);
@@ -205,7 +208,7 @@ static void kernel_compress(const char *op, int bits, int cs, int w, int h, int 
 done:
   jpeg_destroy_compress(&c);
   free(buf); free(inrows); free(img);
-  for (ci = 0; ci < 3; ci++) { free(planes[ci]); free(prow[ci]); }
+  for (ci = 0; ci < 4; ci++) { free(planes[ci]); free(prow[ci]); }
 }
 
 static void kernel_decompress(const char *op, int bits, int cs, int w, int h, int pitch, int bu)
@@ -213,9 +216,13 @@ static void kernel_decompress(const char *op, int bits, int cs, int w, int h, in
   struct jpeg_decompress_struct d; struct jpeg_error_mgr e;
   unsigned char *jpg = NULL; unsigned long jlen = 0;
   int merged = (op[0] == 'm'), v2 = !strcmp(op, "m2");
-  int jcs = (!strcmp(op, "g2c")) ? JCS_GRAYSCALE : (!strcmp(op, "r2c") || !strcmp(op, "r2g")) ? JCS_RGB : JCS_YCbCr;
-  int nin = (jcs == JCS_GRAYSCALE) ? 1 : 3, ci, i, n;
-  void *pl[3] = { NULL, NULL, NULL }; void **prow[3] = { NULL, NULL, NULL }; void ***img = NULL;
+  int is565 = (op[1] == '5');
+  int jcs = (!strcmp(op, "g2c") || op[0] == 'g') ? JCS_GRAYSCALE : (!strcmp(op, "r2c") || !strcmp(op, "r2g") || (is565 && op[0] == 'r')) ? JCS_RGB :
+            !strcmp(op, "k2c") ? JCS_YCCK : JCS_YCbCr;
+  int nin = (jcs == JCS_GRAYSCALE) ? 1 : (jcs == JCS_YCCK) ? 4 : 3, ci, i, n;
+  int mis = is565 ? (bu >> 1) & 3 : 0, chunk = is565 ? (bu >> 3) & 7 : 0, scan0 = is565 ? (bu >> 6) & 3 : 0;
+  void *pl[4] = { NULL, NULL, NULL, NULL }; void **prow[4] = { NULL, NULL, NULL, NULL }; void ***img = NULL;
+  void *rawbuf = NULL;
   void *buf = NULL; void **outrows = NULL;
   int cw = merged ? (w + 1) / 2 : w, chh = v2 ? (h + 1) / 2 : h;
   d.err = mkerr(&e);
@@ -227,10 +234,11 @@ static void kernel_decompress(const char *op, int bits, int cs, int w, int h, in
   jpeg_read_header(&d, TRUE);
   d.out_color_space = (J_COLOR_SPACE)cs;
   d.do_fancy_upsampling = merged ? FALSE : TRUE;
+  if (is565) { d.dither_mode = (op[2] == 'd') ? JDITHER_ORDERED : JDITHER_NONE; bu &= 1; }
   jpeg_start_decompress(&d);
   if (nlists != nin + 1) { printf("err lists %d\n", nlists); goto done; }
-  img = malloc(sizeof(void **) * 3);
-  for (ci = 0; ci < 3; ci++) {
+  img = malloc(sizeof(void **) * 4);
+  for (ci = 0; ci < 4; ci++) {
     int pw = (ci == 0) ? w : cw, ph = (ci == 0) ? h : chh, k = 0;
     if (!merged) { pw = w; ph = h; }
     pl[ci] = calloc((size_t)pw * (ph + 2) + 64, 2);
@@ -241,7 +249,9 @@ static void kernel_decompress(const char *op, int bits, int cs, int w, int h, in
     img[ci] = prow[ci];
   }
   n = list_len[nin];
-  buf = malloc((size_t)(n + 64) * 2);
+  rawbuf = aligned_alloc(16, (((size_t)(n + 64) * 2 + 16) + 15) / 16 * 16);
+  if (!rawbuf) { printf("err alloc\n"); goto done; }
+  buf = (char *)rawbuf + mis;      /* RGB565: address of the output buffer modulo 4 */
   for (i = 0; i < n; i++) puts_(buf, bits, i, nums[list_off[nin] + i]);
   outrows = malloc(sizeof(void *) * (h + 2));
   for (i = 0; i < h; i++)
@@ -255,6 +265,14 @@ static void kernel_decompress(const char *op, int bits, int cs, int w, int h, in
       else
         (*d.upsample->upsample_12) (&d, (J12SAMPIMAGE)img, &in_ctr, (JDIMENSION)chh, (J12SAMPARRAY)outrows, &out_ctr, (JDIMENSION)h);
     }
+  } else if (is565) {
+    int r0;
+    if (chunk == 0) chunk = h;
+    for (r0 = 0; r0 < h; r0 += chunk) {      /* one color_convert call per `chunk` rows, as jpeg_read_scanlines would */
+      d.output_scanline = (JDIMENSION)(scan0 + r0);
+      (*d.cconvert->color_convert) (&d, (JSAMPIMAGE)img, (JDIMENSION)r0, (JSAMPARRAY)outrows + r0, (h - r0 < chunk) ? h - r0 : chunk);
+    }
+    d.output_scanline = 0;
   } else {
     if (bits == 8) (*d.cconvert->color_convert) (&d, (JSAMPIMAGE)img, 0, (JSAMPARRAY)outrows, h);
     else if (bits == 12) (*d.cconvert->color_convert_12) (&d, (J12SAMPIMAGE)img, 0, (J12SAMPARRAY)outrows, h);
@@ -265,8 +283,8 @@ static void kernel_decompress(const char *op, int bits, int cs, int w, int h, in
   fputs("\n", stdout);
 done:
   jpeg_destroy_decompress(&d);
-  free(jpg); free(buf); free(outrows); free(img);
-  for (ci = 0; ci < 3; ci++) { free(pl[ci]); free(prow[ci]); }
+  free(jpg); free(rawbuf); free(outrows); free(img);
+  for (ci = 0; ci < 4; ci++) { free(pl[ci]); free(prow[ci]); }
 }
 
 /* ------------------------------------------------------------------ API cases */
